@@ -124,11 +124,13 @@ pub open spec fn cond_of(f: il::Function, h: usize, t: usize) -> Option<Expressi
 }
 
 /// "the guard evaluates to one"
+#[verifier::opaque]
 pub open spec fn guard_one(c: Expression, s: Sigma) -> bool {
     eval_spec(c, aenv(s.scalars)) matches EvalR::Val(w, v) && v == 1
 }
 
 /// the guard evaluates, to something other than one
+#[verifier::opaque]
 pub open spec fn guard_not_one(c: Expression, s: Sigma) -> bool {
     eval_spec(c, aenv(s.scalars)) matches EvalR::Val(w, v) && v != 1
 }
@@ -307,7 +309,7 @@ pub proof fn lemma_instr_facts(f: il::Function, b: &il::Block, ins: &il::Instruc
 /// an edge location `Edge(e)` of `f`
 pub proof fn lemma_edge_facts(f: il::Function, e: &il::Edge)
     requires fn_ok(f), rfl_in(f, il::RefFunctionLocation::Edge(e)),
-    ensures edge_ok(*e), cond_of(f, e.head, e.tail) == e.condition,
+    ensures edge_ok(*e), cond_of(f, e.head, e.tail) == e.condition, e.condition matches Some(c) ==> expr_sane(c),
 {
     assert(edge_ok(f.control_flow_graph.graph.edges@[(e.head, e.tail)]));
 }
@@ -332,14 +334,33 @@ pub proof fn lemma_non_edge_succ_unique(f: il::Function, l: Loc, l2: Loc)
 pub proof fn lemma_listed(p: il::Program, f: il::Function, l: Loc, v: Seq<il::RefProgramLocation>, j: int)
     requires
         lists_rpls(v, f, |l2: Loc| succ(f, l, l2)), 0 <= j < v.len(),
-        p.holds_function(f),
+        p.program_wf(), p.holds_function(f),
     ensures
         succ(f, l, v[j].loc()), rfl_in(f, v[j].function_location), *v[j].function == f,
         own_loc(v[j]) == ploc(f, v[j].loc()),
         loc_valid(f, v[j].loc()),
+        loc_ok(p, ploc(f, v[j].loc())),
 {
     assert((|l2: Loc| succ(f, l, l2))(loc_of(v[j].function_location)));
     lemma_rfl_in_valid(f, v[j].function_location);
+    reveal(il::Program::holds_function);
+    let k = choose|k: usize| #![trigger p.functions@.contains_key(k)] p.functions@.contains_key(k) && *p.functions@[k] == f;
+    assert((*p.functions@[k]).index == Some(k));
+    lemma_fl_loc_inv(v[j].loc());
+}
+
+/// the forward list of an edge location is not empty (the start of the tail block)
+pub proof fn lemma_edge_forward(f: il::Function, e: &il::Edge, v: Seq<il::RefProgramLocation>)
+    requires rfl_in(f, il::RefFunctionLocation::Edge(e)), lists_rpls(v, f, |l2: Loc| succ(f, Loc::Edge(e.head, e.tail), l2)),
+    ensures v.len() >= 1,
+{
+    let t = e.tail;
+    let lc = Loc::Edge(e.head, e.tail);
+    let blk = f.control_flow_graph.blocks_view()[t];
+    let l_start = if blk.instructions@.len() == 0 { Loc::EmptyBlock(t) } else { Loc::Instruction(t, blk.instructions@[0].index) };
+    lemma_rfl_in_valid(f, il::RefFunctionLocation::Edge(e));
+    assert(is_block_start(f, t, l_start));
+    assert((|l2: Loc| succ(f, lc, l2))(l_start));
 }
 
 /// when the listed successors are all blocked, no guard holds
@@ -388,6 +409,24 @@ pub proof fn lemma_missing_cond(f: il::Function, l: Loc, v: Seq<il::RefProgramLo
     if m < j { assert(loc_of(v[m].function_location) != loc_of(v[j].function_location)); }
     else { assert(loc_of(v[j].function_location) != loc_of(v[m].function_location)); }
     assert(succ(f, l, v[j].loc()) && succ(f, l, v[m].loc()) && v[j].loc() != v[m].loc());
+}
+
+/// the guard `c` of successor edge `l2` cannot be evaluated: whatever error `symbolize_and_eval` reports for it
+/// (under that function's contract) is a guard failure of the step relation
+pub proof fn lemma_guard_fail(f: il::Function, l: Loc, s1: Sigma, l2: Loc, st1: IMap<Seq<char>, Constant>, c: Expression)
+    requires
+        succ(f, l, l2), l2 matches Loc::Edge(h, t) && cond_of(f, h, t) == Some(c),
+        s1.scalars == astore(st1),
+    ensures
+        forall|e: Error| (!(expr_wf(c) && typed_in(st1, c)) || eval_agrees(Err::<Constant, Error>(e), eval_spec(c, store_env(st1))))
+            ==> #[trigger] guard_fails(f, l, s1, e),
+{
+    lemma_env(st1);
+    lemma_atyped(st1, c);
+    assert forall|e: Error| (!(expr_wf(c) && typed_in(st1, c)) || eval_agrees(Err::<Constant, Error>(e), eval_spec(c, store_env(st1))))
+        implies #[trigger] guard_fails(f, l, s1, e) by {
+        assert(guard_fault(f, s1, l2, e));
+    }
 }
 
 /// the location `from_address` found, as an owned location
@@ -568,6 +607,13 @@ impl Driver {
             ==> step_allows(*self.program, self.location, sigma_of(self.state), step_res(r)),
         /*@inv*/ r matches Ok(d) ==> driver_wf(d),
 //@ enter
+    // the function's own context sees the data invariants and the location vocabulary only as atoms: every
+    // fact it needs about them is produced by a lemma call (keeps failing queries fast)
+    hide(lists_rpls); hide(il::Program::program_wf); hide(il::ControlFlowGraph::cfg_wf); hide(il::Block::block_wf);
+    hide(fn_ok); hide(prog_ok); hide(block_ok); hide(edge_ok); hide(succ); hide(loc_valid); hide(rfl_in); hide(rfl_points_in);
+    hide(store_wf); hide(op_spec); hide(op_sane); hide(op_wf); hide(op_typed); hide(op_atyped); hide(err_is);
+    hide(none_taken); hide(guard_fails); hide(missing_cond); hide(addr_loc); hide(program_extended); hide(program_no_addr);
+    hide(typed_in); hide(atyped_in); hide(store_fits); hide(mem_view); hide(astore);
     broadcast use rc_cow::axiom_rc_cloned;
     let ghost p0 = pval(self.program);
     let ghost l0 = self.location;
@@ -619,11 +665,12 @@ impl Driver {
 //@ before 0 `if successor .state() .symbolize_and_eval(`
     let ghost tk = takes(f, lc, s1, location.loc());
     proof {
+        reveal(guard_one); reveal(guard_not_one);
         lemma_edge_facts(f, edge);
         if edge.condition is None {
             lemma_missing_cond(f, lc, v, it.index@);
         } else {
-            lemma_atyped(st1, edge.condition->Some_0);
+            lemma_guard_fail(f, lc, s1, location.loc(), st1, edge.condition->Some_0);
         }
     }
 //@ before 0 `Err(Error::ExecutorNoValidLocation)`
@@ -650,12 +697,7 @@ impl Driver {
 //@ after 1 `let locations = location.forward()?;`
     let ghost v = locations@;
     proof {
-        let t = lc->Edge_1;
-        let blk = f.control_flow_graph.blocks_view()[t];
-        let l_start = if blk.instructions@.len() == 0 { Loc::EmptyBlock(t) } else { Loc::Instruction(t, blk.instructions@[0].index) };
-        lemma_rfl_in_valid(f, location.function_location);
-        assert(is_block_start(f, t, l_start));
-        assert((|l2: Loc| succ(f, lc, l2))(l_start));
+        lemma_edge_forward(f, location.function_location->Edge_0, v);
         lemma_listed(p0, f, lc, v, 0);
         lemma_allows_edge(p0, l0, s0, f, lc->Edge_0, lc->Edge_1);
     }
@@ -680,11 +722,12 @@ impl Driver {
 //@ before 0 `if self .state .symbolize_and_eval(`
     let ghost tk = takes(f, lc, s0, location.loc());
     proof {
+        reveal(guard_one); reveal(guard_not_one);
         lemma_edge_facts(f, edge);
         if edge.condition is None {
             lemma_missing_cond(f, lc, v, it.index@);
         } else {
-            lemma_atyped(st0, edge.condition->Some_0);
+            lemma_guard_fail(f, lc, s0, location.loc(), st0, edge.condition->Some_0);
         }
     }
 //@ before 1 `Err(Error::ExecutorNoValidLocation)`
@@ -811,6 +854,7 @@ pub proof fn lemma_select_deterministic(p: il::Program, f: il::Function, l: Loc,
     requires guards_decide(f, l, s1), select_allows(p, f, l, s1, r1), select_allows(p, f, l, s1, r2),
     ensures r1 is Next, r1 == r2,
 {
+    reveal(guard_one); reveal(guard_not_one);
     let w = choose|l2: Loc| #[trigger] takes(f, l, s1, l2);
     assert(succ(f, l, w) && guard_evaluates(f, s1, w));
     assert forall|e: Error| !select_allows(p, f, l, s1, StepRes::Fail(e)) by {
